@@ -97,14 +97,12 @@ def u_update(I, sizes):
             for c in idl:
                 ctx.assume(z3.Implies(z3.And(iso(a, b), iso(b, c)), iso(a, c)))
     pid = lambda l: [s.fields['id'] for s in l]
-    # preconditions: I2 for the work list, products pairwise distinct
+    # precondition: the invariant I2 for the work list (established by the seed statements, preserved by this statement)
     wl0 = pid(unprocessed) + pid(processed)
     for i in range(len(wl0)):
         for j in range(i):
             ctx.assume(z3.Not(iso(wl0[i], wl0[j])))
-    for i in range(np_):
-        for j in range(i):
-            ctx.assume(z3.Not(iso(pid(products)[i], pid(products)[j])))
+    # (the products need NOT be pairwise distinct: the update compares each product with the work list as it stands at that moment)
     env = Env({'products': products, 'processed': processed, 'unprocessed': unprocessed}, Func(fn, m, None, None, 'GenerateRxnNet'), None, m, set())
     try:
         I.exec(stmt, env)
